@@ -117,3 +117,96 @@ func VerifHarness_C05_decrypt_cbc() {
 		verifAssert("C05.decrypt.noForgeryAccepted", false)
 	}
 }
+
+// C05 / C12 — the first bad record is final, whatever the receiving application did before: one genuine record
+// A, then a record that must end the stream (attacker garbage of a genuine length, a replay of A, or a genuine
+// but illegal handshake record from the key-holding peer: no renegotiation), then a genuine record B. The
+// receiver may have shut down its own write side first (CloseWrite) or written data. Reads hand out A, then an
+// error — never a silent (0, nil), never B — and every later Read and Write fails.
+//
+//verif:harness props=C05,C12 paths=60000 split reach=failed
+func VerifHarness_C05_error_is_final() {
+	kind := verifSplitInt("cipher", vcGCM, vcCBC)
+	iv := verifNondetBytes("iv", 4)
+	wt := &verifConn{}
+	w := newEstablished(wt, kind, iv, true)
+	a := verifNondetBytes("ptA", 1)
+	b := verifNondetBytes("ptB", 1)
+	verifAssume(a[0] != b[0])
+	w.Write(a)
+	la := len(wt.out)
+	recA := append([]byte(nil), wt.out...)
+	bad := verifSplitInt("badRecord", 0, 2)
+	verifTag("badRecord", bad)
+	var x []byte
+	if bad == 2 {
+		// a genuine record of the key-holding peer that no TLCP peer may send after the handshake: HelloRequest
+		w.out.Lock()
+		w.writeRecordLocked(recordTypeHandshake, []byte{0, 0, 0, 0})
+		w.out.Unlock()
+		x = append([]byte(nil), wt.out[la:]...)
+	}
+	start := len(wt.out)
+	w.Write(b)
+	recB := append([]byte(nil), wt.out[start:]...)
+	switch bad {
+	case 0: // injected: arbitrary bytes of a genuine record's length that are not the record the sender sent next
+		x = verifNondetBytes("garbage", la)
+		x[3], x[4] = byte((la-5)>>8), byte(la-5)
+		if len(recB) == la {
+			// (under E7, CBC = identity, the explicit IV carries no information: a record that differs from B only
+			// in its IV field IS B, so the IV bytes are left out of the comparison for CBC)
+			same := true
+			for j := 0; j < la; j++ {
+				if kind == vcCBC && j >= 5 && j < 5+16 {
+					continue
+				}
+				same = verifAnd(same, x[j] == recB[j])
+			}
+			verifAssume(!same)
+		}
+	case 1: // replay of A
+		x = recA
+	}
+	wire := append(append(append([]byte(nil), recA...), x...), recB...)
+	if bad != 2 {
+		vmac.recStarts = []int{la}
+		vmac.wire = wire
+	}
+	rt := &verifConn{in: wire}
+	r := newEstablished(rt, kind, iv, false)
+	switch verifSplitInt("before", 0, 2) {
+	case 1:
+		verifAssert("C12.final.closeWriteOK", r.CloseWrite() == nil)
+	case 2:
+		n, err := r.Write([]byte{7})
+		verifAssert("C12.final.writeOK", n == 1 && err == nil)
+	}
+	got := 0
+	failed := false
+	for i := 0; i < 4; i++ {
+		buf := make([]byte, 2)
+		n, err := r.Read(buf)
+		if failed {
+			verifAssert("C05.final.stickyError", n == 0 && err != nil)
+			verifAssert("C12.final.stickyError", n == 0 && err != nil)
+			continue
+		}
+		verifAssert("C05.final.onlyTheGenuinePrefix", got+n <= 1 && (n == 0 || buf[0] == a[0]))
+		verifAssert("C12.final.nothingAfterTheFatalRecord", got+n <= 1 && (n == 0 || buf[0] == a[0]))
+		got += n
+		if err != nil {
+			failed = true
+			verifReach("failed")
+			continue
+		}
+		verifAssert("C05.final.noSilentSkip", n > 0)
+		verifAssert("C12.final.noSilentSkip", n > 0)
+	}
+	verifAssert("C05.final.errorReported", failed)
+	verifAssert("C12.final.errorReported", failed)
+	if failed {
+		n, err := r.Write([]byte{9})
+		verifAssert("C12.final.writeFailsAfterFatalError", n == 0 && err != nil)
+	}
+}
